@@ -83,6 +83,7 @@ def evaluate(results, tag):
 def step_name(st):
     if 'op' in st: return st['op'][0]
     if 'live' in st: return 'live_' + st['live'][0]
+    if 'opaque' in st: return st['opaque'][0]
     return 'read:' + st['read'][0]
 
 
@@ -207,14 +208,14 @@ def run(tier, seed, replay=None):
             sizes[min(ncached, 8)] = sizes.get(min(ncached, 8), 0) + 1
             # non-trivial: a mutation or live setter performed while at least one row wrapper was cached, or a read that changed the private state
             if ('read' not in r['step'] and ncached > 0) or ('read' in r['step'] and r['postd'] != r['afterd']) or r['post'] != r['pre']:
-                distinct.add(common.digest((tl.shape_of(r['pre']), r['step'].get('op') or r['step'].get('live') or r['step'].get('read'),
+                distinct.add(common.digest((tl.shape_of(r['pre']), r['step'].get('op') or r['step'].get('live') or r['step'].get('opaque') or r['step'].get('read'),
                                             [(k, p, m) for k, p, m, _ in r['postd'][2]])))
     fid = sum(1 for c in bad.values() if c == 9); c01 = sum(1 for c in bad.values() if c == 8)
     cov = dict(
         trusted_base=TRUSTED, evaluations=steps, histories=len(results), distinct_nontrivial=len(distinct),
         rule='initial tables {empty, Table(w,h), random run-length shapes written as XML text, tables of tests/samples/*.ods with clamped repeats}; histories of 1-%d mutations of the 22 C01 '
              'entry points (positions around every run boundary of the current state, the edge, beyond, negative; repeats 1-4), each preceded with probability 1/2 by one or two cache-filling reads '
-             '(get_row / get_cell with clone true or false, traverse, get_column, columns, get_value, get_row_values, get_cell) and replaced with probability 0.1 by a `repeated` setter on a live row / cell; '
+             '(get_row / get_cell with clone true or false, traverse, get_column, columns, get_value, get_row_values, get_cell) and replaced with probability 0.1 by a `repeated` setter on a live row / cell and with probability 0.08 by an operation outside the modelled alphabet (rstrip, optimize_width, transpose, Row calls through a live row handle: judged by coherence, fresh parse and twin only); '
              'after EVERY step: raw lxml abstraction, private state, the same call on a fresh parse, 9-13 observation reads live and fresh, every 3rd step Document.save -> reopen; corpus first. '
              'distinct_nontrivial = distinct (pre-state run shape, step, cached wrappers) where the XML changed, or a mutation ran while row wrappers were cached, or the observation reads changed the private state'
              % (6 if tier == 'quick' else 9),
